@@ -125,6 +125,14 @@ def witnesses(ctx):
 def run(ctx):
     if ctx.shard == 0:
         witnesses(ctx)
+    if ctx.shard % 4 == 1:
+        # storage units of bit-fields placed at run time (behind a variable-size member), exactly filled units followed by
+        # a unit of the same type, storage types whose size is not their alignment
+        r2 = ctx.rng("runtime-units")
+        for _ in range(8 if not ctx.thorough else 80):
+            case = gen.runtime_placed_units_case(r2)
+            ctx.cell("bit-field-units-placed-at-run-time")
+            check_case(ctx, case, r2)
     for i in range(N_CASES[ctx.tier]):
         if ctx.out_of_time():
             break
